@@ -243,3 +243,41 @@ Arguments ESend {W}. Arguments EReliable {W}.
 Arguments mkChan {W}. Arguments new_chan {W}.
 Arguments CBcast {B}. Arguments CEnv {B}.
 Arguments DPacket {W}. Arguments DFull {W}.
+
+(* ================= membership: who is sent an oversized update ================= *)
+(* Peer.AddState: the oversize worker's receiver list is mlist.Members() minus self, read when the message is taken.
+   memberlist identifies nodes by NAME (an address may be reused by a restarted instance under a new name while the
+   old name is still on its way to being declared dead). *)
+Inductive mev := MJoin (name addr : string) | MLeave (name : string).
+
+Definition mev_step (ms : list (string * string)) (e : mev) : list (string * string) :=
+  match e with
+  | MJoin n a => (n, a) :: filter (fun m => negb (String.eqb (fst m) n)) ms
+  | MLeave n => filter (fun m => negb (String.eqb (fst m) n)) ms
+  end.
+Definition members_after (h : list mev) : list (string * string) := foldl mev_step [] h.
+Definition oversize_receivers (self : string) (h : list mev) : list string :=
+  filter (fun n => negb (String.eqb n self)) (map fst (members_after h)).
+
+(* ================= TLS transport packet framing (cluster/tls_connection.go) ================= *)
+(* writePacket: frame = 4-byte little-endian length ++ message, handed to ONE conn.Write under the connection's
+   mutex, so the byte stream of a pooled connection is a concatenation of whole frames (in lock order), whatever
+   the number of goroutines writing. read: length, then that many bytes. *)
+Definition le32 (n : Z) : list N :=
+  [Z.to_N (n mod 256); Z.to_N (n / 256 mod 256); Z.to_N (n / 65536 mod 256); Z.to_N (n / 16777216 mod 256)].
+Definition un_le32 (a b c d : N) : Z := Z.of_N a + 256 * Z.of_N b + 65536 * Z.of_N c + 16777216 * Z.of_N d.
+Definition frame (p : list N) : list N := le32 (Z.of_nat (length p)) ++ p.
+
+Fixpoint parse_frames (fuel : nat) (s : list N) : option (list (list N)) :=
+  match s with
+  | [] => Some []
+  | a :: b :: c :: d :: r =>
+      let n := Z.to_nat (un_le32 a b c d) in
+      if (n <=? length r)%nat then
+        match fuel with
+        | O => None
+        | S f => match parse_frames f (drop n r) with Some l => Some (take n r :: l) | None => None end
+        end
+      else None
+  | _ => None
+  end.
